@@ -197,6 +197,58 @@ fn __verif::spin_lock(_1: &Atomic<bool>) -> () {
     }
 }
 
+fn __verif::fetch_update(_1: &Atomic<u32>, _2: std::sync::atomic::Ordering, _3: std::sync::atomic::Ordering, _4: F) -> Result<u32, u32> {
+    let mut _0: Result<u32, u32>;
+    let mut _5: u32;
+    let mut _6: Option<u32>;
+    let mut _7: u32;
+    let mut _8: Result<u32, u32>;
+    let mut _9: &mut F;
+    let mut _10: (u32,);
+    let mut _11: isize;
+    let mut _12: isize;
+
+    bb0: {
+        _5 = std::sync::atomic::Atomic::<u32>::load(copy _1, copy _3) -> [return: bb1, unwind continue];
+    }
+
+    bb1: {
+        _9 = &mut _4;
+        _10 = (copy _5,);
+        _6 = <F as FnMut<(u32,)>>::call_mut(copy _9, move _10) -> [return: bb2, unwind continue];
+    }
+
+    bb2: {
+        _11 = discriminant(_6);
+        switchInt(move _11) -> [0: bb5, otherwise: bb3];
+    }
+
+    bb3: {
+        _7 = copy ((_6 as Some).0: u32);
+        _8 = std::sync::atomic::Atomic::<u32>::compare_exchange_weak(copy _1, copy _5, copy _7, copy _2, copy _3) -> [return: bb4, unwind continue];
+    }
+
+    bb4: {
+        _12 = discriminant(_8);
+        switchInt(move _12) -> [0: bb6, otherwise: bb7];
+    }
+
+    bb5: {
+        _0 = Result::<u32, u32>::Err(copy _5);
+        return;
+    }
+
+    bb6: {
+        _0 = Result::<u32, u32>::Ok(copy _5);
+        return;
+    }
+
+    bb7: {
+        _5 = copy ((_8 as Err).0: u32);
+        goto -> bb1;
+    }
+}
+
 fn __verif::read_u32(_1: &u32) -> u32 {
     let mut _0: u32;
 
@@ -1590,4 +1642,126 @@ def _c07_registry(add, tier, TO):
     q("c07_full_sync_cancel_one_of_two_parked", "thorough", "uni_move_full_sync", 2, 2, 2, 0, ("one", 0), [], True)
 
 
-EXTRA_REGISTRIES = [("C13", _c13_registry), ("C14", _c14_registry), ("C08", _c08_registry), ("C18", _c18_registry), ("C19", _c19_registry), ("C16", _c16_registry), ("C04", _c04_registry), ("C05", _c05_registry), ("C07", _c07_registry)]
+# =========================================================================================================
+# C03: Multi channels -- every listener gets every accepted event exactly once, in producer order
+MULTI_FILES = {"multi_arc_atomic": ("src/multi/channels/arc/atomic.rs", "Atomic", "AtomicMove"),
+               "multi_arc_full_sync": ("src/multi/channels/arc/full_sync.rs", "FullSync", "FullSyncMove")}
+
+
+def multi_channel_world(ctx, chan, N, MS, nlisteners):
+    """Multi channel with `nlisteners` listeners (stream ids 0..nlisteners-1), every per-listener queue empty, origin any u32 (shared
+    by all rings -- they are created together)"""
+    cfile, cstruct, ring = MULTI_FILES[chan]
+    consts = {"BUFFER_SIZE": N, "MAX_STREAMS": MS}
+    types = {"SlotType": "u32", "ItemType": "u32", "DerivedItemType": "u32", "ChannelConsumerType": "@" + cfile}
+    w = World(ctx.index, ctx.type_files, consts, types)
+    origin = w.sym("origin")
+    fixed = os.environ.get("VERIF_M_ORIGIN")
+    if fixed is not None: w.inputs["origin"] = origin = BV(32, int(fixed, 0))
+    cf = {nm: i for i, nm in enumerate(layout.struct_fields(cfile, cstruct))}
+    for j in range(MS):
+        if ring == "AtomicMove": w.atomic_move("ch", (cf["channels"], j), N, origin, [])
+        else: w.full_sync_move("ch", (cf["channels"], j), N, origin, [])
+    sf = {nm: i for i, nm in enumerate(w.fields("StreamsManagerBase"))}
+    sm = (cf["streams_manager"],)
+    w.decl("ch", sm + (sf["wakers"], "*"), "array", z3.BitVecSort(8), [BV(8, 0) for j in range(MS)], n=MS)
+    w.mem[("ch", sm + (sf["wakers"], "*"))]["codec"] = "opt_waker"
+    w.decl("ch", sm + (sf["wakers_lock"],), "atomic", z3.BoolSort(), z3.BoolVal(False))
+    w.decl("ch", sm + (sf["keep_streams_running"], "*"), "array", z3.BoolSort(), [z3.BoolVal(j < nlisteners) for j in range(MS)], n=MS)
+    # the set of listeners does not change during these queries: the live-stream list is a constant array (reads are not visible operations)
+    w.decl("ch", sm + (sf["used_streams"], "*"), "frozen", None, value=[BV(32, j if j < nlisteners else 0xFFFFFFFF) for j in range(MS)])
+    w.decl("ch", sm + (sf["used_streams_count"],), "atomic", z3.BitVecSort(32), BV(32, nlisteners))
+    return w, Ptr("ch"), cfile, ring
+
+
+def multi_query(ctx, name, chan, N, MS, nlisteners, producers, consumers, timeout_s, slack=2):
+    """producers: per producer thread the number of send() calls; consumers: per listener the number of consume() calls made
+    CONCURRENTLY by that listener's thread; afterwards every listener drains its queue (threads that run after all others).
+    Oracle per listener: the values it received (concurrent + drain, in order) are exactly the sent ones, each once, and the events
+    of one producer arrive in that producer's send order."""
+    w, ch, cfile, ring = multi_channel_world(ctx, chan, N, MS, nlisteners)
+    it = w.interp()
+    f_send = ctx.index.method("send", cfile); f_consume = ctx.index.method("consume", cfile)
+    graphs = []; sent = []
+    for t, cnt in enumerate(producers):
+        vs = [w.sym("v%d_%d" % (t, j)) for j in range(cnt)]; sent.append(vs)
+        graphs.append(build_thread(it, t, [(f_send, [ch, v], "send") for v in vs], w.mem))
+    P = len(producers)
+    for i in range(nlisteners):
+        graphs.append(build_thread(it, P + i, [(f_consume, [ch, BV(32, i)], "consume")] * max(1, consumers[i]), w.mem))
+    total = sum(producers)
+    after = {}
+    for i in range(nlisteners):
+        t = P + nlisteners + i
+        graphs.append(build_thread(it, t, [(f_consume, [ch, BV(32, i)], "drain")] * total, w.mem)); after[t] = True
+    S = sum(g.step_budget() for g in graphs) + slack
+    b = BMC(graphs, w.mem, S, {"after_all": after})
+    S = b.S
+    allv = [v for vs in sent for v in vs]
+    cons = [allv[i] != allv[j2] for i in range(len(allv)) for j2 in range(i + 1, len(allv))]
+    for v in allv: cons.append(z3.And(z3.UGE(v, BV(32, 0x1000)), z3.ULT(v, BV(32, POISON))))
+    good = []
+    for i in range(nlisteners):
+        rc = b.results(P + i, lambda j, v: ex_option_u32(v)) if consumers[i] > 0 else []
+        rd = b.results(P + nlisteners + i, lambda j, v: ex_option_u32(v))
+        R = [(r["some"], r["val"]) for r in (rc + rd)]
+        for (some, val) in R: good.append(z3.Implies(some, z3.Or([val == v for v in allv])))                      # nothing unsent
+        for v in allv: good.append(z3.Sum([z3.If(z3.And(some, val == v), BV(8, 1), BV(8, 0)) for some, val in R]) == 1)  # exactly once
+        for vs in sent:                                                                                         # producer order
+            for x in range(len(vs) - 1):
+                good.append(z3.Or([z3.And(R[j][0], R[j][1] == vs[x], R[k2][0], R[k2][1] == vs[x + 1]) for j in range(len(R)) for k2 in range(j + 1, len(R))]))
+    res_send = [b.results(t, lambda j, v: {"ok": v.discr == 0}) for t in range(P)]
+    accepted = z3.And([r["ok"] for rs in res_send for r in rs])
+    meta = {"threads": ["%d: %d x send" % (t, c) for t, c in enumerate(producers)] + ["%d: listener %d: %d x consume (concurrent)" % (P + i, i, consumers[i]) for i in range(nlisteners)]
+                       + ["listener %d drains its queue (%d x consume, after all)" % (i, total) for i in range(nlisteners)],
+            "oracle": "every listener receives every sent event exactly once, nothing unsent, each producer's events in its send order; every send reports success; no panic / invalid access",
+            "bounds": "%s<u32,%d,%d>, %d listener(s), origin any u32, steps<=%d, payloads distinct symbolic u32; std::sync::Arc carried as its content" % (chan, N, MS, nlisteners, S)}
+    violation = cons + [z3.Or(z3.And(b.all_done(), z3.Not(z3.And(good + [accepted]))), b.any_panic(), b.err[S])]
+    witness = cons + [b.all_done()]
+    meta["functions"] = sorted(set(x.split(">::")[-1] + " @" + (re.search(r"impl at (src/[^:]*)", x).group(1) if "impl at" in x else "") for x in it.functions_used))
+    meta["intrinsics"] = sorted(it.intrinsics_used)
+    rec, model = solve(name, b, violation, witness, timeout_s, ctx.workdir, meta)
+    if model is not None:
+        import replay
+        rec["trace"] = b.decode_schedule(model)
+        inp = {nm: model.eval(v, model_completion=True).as_long() for nm, v in w.inputs.items()}
+        rec["inputs"] = inp
+        progs = [["send:%d" % inp["v%d_%d" % (t, j)] for j in range(c)] for t, c in enumerate(producers)]
+        progs += [["recv:%d" % i] * max(1, consumers[i]) for i in range(nlisteners)]
+        afterp = ["drain:%d" % i for i in range(nlisteners) for _ in range(total)]
+        segs = replay.segments_from_trace(rec["trace"], skip_threads=tuple(range(P + nlisteners, P + 2 * nlisteners)))
+        sent_vals = [[inp["v%d_%d" % (t, j)] for j in range(c)] for t, c in enumerate(producers)]
+        def symptom(h):
+            if h["panics"]: return "panic: " + h["panics"][0]
+            if h["stuck"] or h["timeout"]: return None
+            for i in range(nlisteners):
+                got = [int(e["res"][1]) for e in sorted(h["events"], key=lambda e: (e["thread"] >= P + nlisteners, e["thread"], e["call"])) if e["op"] in ("recv", "drain") and e["arg"] == i and e["res"][:1] == ["some"]]
+                flat = [v for vs in sent_vals for v in vs]
+                for v in got:
+                    if v not in flat: return "listener %d yielded %d which was never sent" % (i, v)
+                for v in flat:
+                    if got.count(v) != 1: return "listener %d yielded event %d %d times (sent once): %s" % (i, v, got.count(v), got)
+                for vs in sent_vals:
+                    idx = [got.index(v) for v in vs]
+                    if idx != sorted(idx): return "listener %d saw one producer's events out of order: %s" % (i, got)
+            return None
+        kind = {"multi_arc_atomic": "MultiArcAtomic", "multi_arc_full_sync": "MultiArcFullSync"}[chan] + ":%d:%d" % (MS, nlisteners)
+        found, why, tried = replay.search(kind, N, [inp["origin"]], [], progs, afterp, segs, symptom, max_runs=250)
+        rec["native_runs"] = tried
+        if found: rec.update(verdict="violation", symptom=found["symptom"], replayed=True, native_history=found["history"].get("events", []), native_segments=found["segments"])
+        else: rec.update(verdict="inconclusive", why="model counterexample did not reproduce natively: %s" % why)
+    return rec
+
+
+def _c03_registry(add, tier, TO):
+    def q(name, qtier, chan, N, MS, nl, producers, consumers, slack=2):
+        add("C03", name, qtier, lambda ctx: multi_query(ctx, name, chan, N, MS, nl, producers, consumers, TO, slack))
+    q("c03_arc_atomic_1p2_2l", "quick", "multi_arc_atomic", 4, 2, 2, [2], [1, 0])
+    q("c03_arc_atomic_2p_1l", "quick", "multi_arc_atomic", 4, 2, 1, [1, 1], [1])
+    q("c03_arc_full_sync_1p2_2l", "quick", "multi_arc_full_sync", 4, 2, 2, [2], [1, 0])
+    q("c03_arc_atomic_2p_2l", "thorough", "multi_arc_atomic", 4, 2, 2, [1, 1], [1, 1])
+    q("c03_arc_full_sync_2p_2l", "thorough", "multi_arc_full_sync", 4, 2, 2, [1, 1], [1, 0])
+    q("c03_arc_atomic_2p2_1l", "thorough", "multi_arc_atomic", 4, 2, 1, [2, 1], [1])
+
+
+EXTRA_REGISTRIES = [("C13", _c13_registry), ("C14", _c14_registry), ("C08", _c08_registry), ("C18", _c18_registry), ("C19", _c19_registry), ("C16", _c16_registry), ("C04", _c04_registry), ("C05", _c05_registry), ("C07", _c07_registry), ("C03", _c03_registry)]
